@@ -777,6 +777,25 @@ def cases(ctx):
                             infos.append(("rtrip", dict(ty=ty, fmt=fmt, g=g, name=name, shape=sh, via="stringio")))
                         else:
                             infos.append(("rtrip3p", dict(ty=ty, fmt=fmt, g=g, name=name if fmt == "gml" else "G", shape=sh, via=via)))
+    # ---- files beyond any buffer size (64 KiB; 1 MiB in the thorough tier) — seeded change C14-6
+    for ty in TY:
+        for fmt in SUPPORTED[ty]:
+            if fmt not in INHOUSE:
+                continue
+            for n in ([170] if quick else [170, 230, 520]):
+                if ty == "bipartite":
+                    l, r = n - 20, n + 11
+                    es = [(u, v) for u in range(1, l + 1) for v in range(1, r + 1) if rng.random() < .8]
+                    g = {"l": l, "r": r, "edges": es}
+                else:
+                    es = [(u, v) for u in range(1, n + 1) for v in range(u + 1, n + 1) if rng.random() < .9]
+                    if ty == "digraph":
+                        es = [(v, u) if rng.random() < .4 else (u, v) for u, v in es]
+                    g = {"n": n, "edges": es}
+                rng.shuffle(es)
+                infos.append(("rtrip", dict(ty=ty, fmt=fmt, g=g, name="large", shape="large", via=rng.choice(["stringio", "file", "from_file"]))))
+                if n == 170:
+                    infos.append(("write", dict(ty=ty, fmt=fmt, g=g, name="large", shape="large", via="file")))
     # ---- malformed texts of the in-house formats
     reps = 1400 if quick else 20000
     for _ in range(reps):
